@@ -309,10 +309,12 @@ pub struct ConcStats {
     answers: u64,
     ok_answers: u64,
     answers_not_latest: u64,
+    writer_failed: u64,
 }
 
 struct ConcScenario {
     key: Vec<u8>,
+    init: Vec<Vec<Pair>>,
     init_snapshot: Vec<DbRecord>,
     conc: Vec<Vec<Pair>>,
     world: World,
@@ -401,29 +403,34 @@ async fn conc_schedule<TC: Tcfg>(case: &ConcCase, sc: &ConcScenario, policy: &Po
     }
     let what0 = format!("schedule {} (actor per step {:?})", crate::sched::show_policy(policy, trace.steps.len()), trace.steps);
     ensure!(!trace.deadlock, "sched-deadlock", "{what0}: actors did not finish");
-    let w = &sc.world;
-    for (ai, o) in outs.into_iter().enumerate() {
-        match o {
-            Some(Out::Writer(rs)) => {
-                // the single writer must reproduce the model exactly
-                let mut m = model_clone::<TC>(&sc.key, &[]);
-                m.roots = w.m.roots[..=sc.e0 as usize].to_vec();
-                m.epoch = sc.e0;
-                let mut e = sc.e0;
-                for (i, r) in rs.iter().enumerate() {
-                    match r {
-                        Ok(eh) => {
-                            ensure!(eh.0 >= e && eh.0 <= w.m.epoch && eh.1 == w.m.roots[eh.0 as usize], "writer-wrong-pair", "{what0}: publish #{i} returned ({}, {}) which is not the pair published for that epoch", eh.0, hex::encode(&eh.1[..6]));
-                            e = eh.0;
-                        }
-                        Err(err) => {
-                            // a rejected (duplicate label) batch is the only legitimate failure
-                            let dup = { let mut s = std::collections::HashSet::new(); !sc.conc[i].iter().all(|(l, _)| s.insert(l.clone())) };
-                            ensure!(dup, "writer-publish-failed", "{what0}: publish #{i} of the only writer failed: {err}");
+    // the epochs the directory REALLY published in this run: replay of the writer's successful publishes
+    let mut outs = outs;
+    let mut m_real = model_clone::<TC>(&sc.key, &sc.init);
+    match outs[0].take() {
+        Some(Out::Writer(rs)) => {
+            for (i, r) in rs.iter().enumerate() {
+                match r {
+                    Ok(eh) => {
+                        let exp = m_real.publish(&sc.conc[i]);
+                        ensure!(exp == Ok((eh.0, eh.1)), "writer-wrong-pair", "{what0}: publish #{i} returned ({}, {}) but applying the successful batches so far gives {:?}", eh.0, hex::encode(&eh.1[..6]), exp.map(|(e, r)| (e, hex::encode(&r[..6]))));
+                    }
+                    Err(_) => {
+                        // a failed publish is not C13's subject (C10 / C12); it only means that epoch was not published
+                        let dup = { let mut s = std::collections::HashSet::new(); !sc.conc[i].iter().all(|(l, _)| s.insert(l.clone())) };
+                        if !dup {
+                            st.writer_failed += 1;
                         }
                     }
                 }
             }
+        }
+        _ => return fail("sched-incomplete", format!("{what0}: the writer has no result")),
+    }
+    let wreal = World { m: m_real, pk: sc.world.pk.clone(), labels: sc.world.labels.clone() };
+    let w = &wreal;
+    for (ai, o) in outs.into_iter().enumerate().skip(1) {
+        match o {
+            Some(Out::Writer(_)) => {}
             Some(Out::Reader(obs)) => {
                 let inst = case.readers[ai - 1].0;
                 for (op, ob) in obs {
@@ -473,7 +480,7 @@ async fn conc_case<TC: Tcfg>(case: &ConcCase, st: &mut ConcStats) -> R {
     let mut labels = case.hist.labels.clone();
     labels.sort();
     labels.dedup();
-    let sc = ConcScenario { key: key.clone(), init_snapshot, conc: batches[k0..].to_vec(), world: World { m, pk: public_key(&key), labels }, e0 };
+    let sc = ConcScenario { key: key.clone(), init: batches[..k0].to_vec(), init_snapshot, conc: batches[k0..].to_vec(), world: World { m, pk: public_key(&key), labels }, e0 };
     let t = conc_schedule::<TC>(case, &sc, &Policy::Preempt(vec![]), st).await? as u32;
     for s in &case.schedules {
         conc_schedule::<TC>(case, &sc, &Policy::Bytes(s.clone()), st).await?;
@@ -519,6 +526,7 @@ pub fn conc_check(case: &ConcCase, ctx: &mut Ctx) -> R {
     ctx.count("answers", st.answers);
     ctx.count("non_error_answers", st.ok_answers);
     ctx.count("answers_naming_an_older_epoch", st.answers_not_latest);
+    ctx.count("writer_publishes_that_failed(not judged here)", st.writer_failed);
     if st.preempted > 0 {
         ctx.nontrivial(fp_json(case));
         ctx.sample(&serde_json::json!({"cfg": case.cfg, "hist": case.hist, "init": case.init, "readers": case.readers, "writer_cached": case.writer_cached, "poller": case.poller, "n_random_schedules": case.schedules.len(), "enumerate": case.enumerate}));
